@@ -198,6 +198,9 @@ func RunJob(j Job) (res *Result) {
 		}
 	}
 	for _, m := range c.Mons {
+		if cl, ok := m.(interface{ Close() }); ok {
+			cl.Close()
+		}
 		s := m.Stats()
 		if s.Prop != j.Prop {
 			continue
